@@ -278,19 +278,30 @@ class AsyncPolicy:
         """Execute with retry and record result with breaker."""
         retry = self.retry
         assert retry is not None
-        outcome = await retry.execute(
-            func,
-            on_metric=on_metric,
-            on_log=on_log,
-            operation=operation,
-            abort_if=abort_if,
-            sleep=sleep,
-            before_sleep=before_sleep,
-            sleeper=sleeper,
-            on_attempt_start=on_attempt_start,
-            on_attempt_end=on_attempt_end,
-            capture_timeline=capture_timeline,
-        )
+        try:
+            outcome = await retry.execute(
+                func,
+                on_metric=on_metric,
+                on_log=on_log,
+                operation=operation,
+                abort_if=abort_if,
+                sleep=sleep,
+                before_sleep=before_sleep,
+                sleeper=sleeper,
+                on_attempt_start=on_attempt_start,
+                on_attempt_end=on_attempt_end,
+                capture_timeline=capture_timeline,
+            )
+        except RetryExhaustedError as exc:
+            # Propagating errors are recorded exactly as call() records them.
+            self._handle_exhausted_call(ctx, exc)
+            raise
+        except AbortRetryError:
+            record_cancel(ctx)
+            raise
+        except Exception as exc:
+            self._handle_exception_call(ctx, exc, None)
+            raise
 
         # Record with circuit breaker
         if ctx.breaker is not None:
